@@ -10,6 +10,7 @@ import (
 	"errors"
 	"fmt"
 	"io"
+	"os"
 	"sort"
 	"strings"
 	"sync"
@@ -135,12 +136,33 @@ type World struct {
 	attempts []int
 	done     chan struct{}
 	wg       sync.WaitGroup
+
+	// Gate, when non-nil, parks every scripted handler after it has read its request until the driver
+	// sends one token (one answer at a time, in the order the driver releases them); once Ended is set
+	// (EndGate) the parked and all later handlers reset their stream without recording anything.
+	Gate    chan struct{}
+	ended   bool
+	stopped bool
 }
+
+// ExtraClientOpts are appended to the Exchange options of every world built while it is set
+// (e.g. p2p.WithMetrics).
+var ExtraClientOpts []p2p.Option[p2p.ClientParameters]
 
 // NewWorld builds client + n peer hosts, links and connects them, starts the real
 // Exchange and waits until its peer tracker has seen every peer.
 // Must be called inside a synctest bubble; wait is synctest.Wait.
 func NewWorld(t *testing.T, n int, chunk uint64, reqTimeout time.Duration, chainID string, wait func()) *World {
+	return newWorld(t, n, chunk, reqTimeout, chainID, wait, false)
+}
+
+// NewWorldDL is NewWorld with a client host whose streams honour the deadline that sendMessage puts
+// on them (DLHost), as every real transport does and mocknet does not.
+func NewWorldDL(t *testing.T, n int, chunk uint64, reqTimeout time.Duration, chainID string, wait func()) *World {
+	return newWorld(t, n, chunk, reqTimeout, chainID, wait, true)
+}
+
+func newWorld(t *testing.T, n int, chunk uint64, reqTimeout time.Duration, chainID string, wait func(), dl bool) *World {
 	w := &World{T: t, ReqTimeout: reqTimeout, Chunk: chunk, done: make(chan struct{}), attempts: make([]int, n)}
 	var err error
 	w.Net, err = mocknet.FullMeshLinked(n + 1)
@@ -163,7 +185,12 @@ func NewWorld(t *testing.T, n int, chunk uint64, reqTimeout time.Duration, chain
 		p2p.WithMaxHeadersPerRangeRequest(chunk),
 		p2p.WithRequestTimeout[p2p.ClientParameters](reqTimeout),
 	}
-	w.Ex, err = p2p.NewExchange[H](w.Client, ids, w.Gater, opts...)
+	opts = append(opts, ExtraClientOpts...)
+	var ch host.Host = w.Client
+	if dl {
+		ch = DLHost{w.Client}
+	}
+	w.Ex, err = p2p.NewExchange[H](ch, ids, w.Gater, opts...)
 	if err != nil {
 		t.Fatal(err)
 	}
@@ -177,6 +204,97 @@ func NewWorld(t *testing.T, n int, chunk uint64, reqTimeout time.Duration, chain
 	}
 	wait()
 	return w
+}
+
+// ---------------------------------------------------------------- deadlines
+
+// mocknet streams ignore SetDeadline. DLHost wraps the client's host so that the streams it opens
+// honour read deadlines in the bubble's virtual time and fail with os.ErrDeadlineExceeded, like
+// yamux's "i/o deadline reached" (same construction as harness/c13's dlHost).
+type DLHost struct{ host.Host }
+
+func (h DLHost) NewStream(ctx context.Context, p peer.ID, pids ...protocol.ID) (network.Stream, error) {
+	s, err := h.Host.NewStream(ctx, p, pids...)
+	if err != nil {
+		return nil, err
+	}
+	return &dlStream{Stream: s}, nil
+}
+
+type readRes struct {
+	data []byte
+	err  error
+}
+
+// dlStream is used by one goroutine at a time (sendMessage).
+type dlStream struct {
+	network.Stream
+	deadline time.Time
+	pending  chan readRes // an underlying Read in flight
+	left     []byte       // data received but not yet handed out
+	err      error        // error that came with the last data
+}
+
+// the transport notices a deadline a moment after the context it was copied from
+const deadlineSlack = 10 * time.Millisecond
+
+func (s *dlStream) SetDeadline(t time.Time) error {
+	s.deadline = t
+	if !t.IsZero() {
+		s.deadline = t.Add(deadlineSlack)
+	}
+	return nil
+}
+func (s *dlStream) SetReadDeadline(t time.Time) error { return s.SetDeadline(t) }
+
+func (s *dlStream) Read(b []byte) (int, error) {
+	if len(b) == 0 {
+		return 0, nil
+	}
+	if len(s.left) > 0 {
+		n := copy(b, s.left)
+		s.left = s.left[n:]
+		return n, nil
+	}
+	if s.err != nil {
+		err := s.err
+		s.err = nil
+		return 0, err
+	}
+	if s.pending == nil {
+		ch := make(chan readRes, 1)
+		n := len(b)
+		go func() {
+			buf := make([]byte, n)
+			k, err := s.Stream.Read(buf)
+			ch <- readRes{buf[:k], err}
+		}()
+		s.pending = ch
+	}
+	var expired <-chan time.Time
+	if !s.deadline.IsZero() {
+		d := time.Until(s.deadline)
+		if d <= 0 {
+			return 0, os.ErrDeadlineExceeded
+		}
+		t := time.NewTimer(d)
+		defer t.Stop()
+		expired = t.C
+	}
+	select {
+	case r := <-s.pending:
+		s.pending = nil
+		n := copy(b, r.data)
+		s.left = r.data[n:]
+		if n > 0 {
+			s.err = r.err
+			return n, nil
+		}
+		return 0, r.err
+	case <-expired:
+		// the reader goroutine ends when the caller resets the stream (sendMessage does)
+		return 0, os.ErrDeadlineExceeded
+	}
 }
 
 // AddBackend creates one more host, linked and connected to peer i only (the client never sees it).
@@ -213,6 +331,10 @@ func (w *World) Script(i int, b Behaviour) {
 		w.attempts[i]++
 		w.mu.Unlock()
 		_, byHash := req.Data.(*p2p_pb.HeaderRequest_Hash)
+		if w.Gate != nil && !w.passGate() {
+			s.Reset() //nolint:errcheck
+			return
+		}
 		w.slowDown(att)
 		rep, name := b(w, i, req.GetOrigin(), req.Amount, att)
 		w.record(Event{Peer: i, Now: time.Now().UnixNano(), Origin: req.GetOrigin(), Amount: req.Amount, ByHash: byHash,
@@ -398,9 +520,42 @@ func (w *World) Close() {
 	close(w.done)
 	ctx, cancel := context.WithTimeout(context.Background(), time.Hour)
 	defer cancel()
-	_ = w.Ex.Stop(ctx)
+	if !w.stopped {
+		_ = w.Ex.Stop(ctx)
+	}
 	_ = w.Net.Close()
 	w.wg.Wait()
+}
+
+// passGate parks a gated handler until the driver releases it; false = the gate was ended.
+func (w *World) passGate() bool {
+	select {
+	case <-w.Gate:
+	case <-w.done:
+		return false
+	}
+	w.mu.Lock()
+	defer w.mu.Unlock()
+	return !w.ended
+}
+
+// EndGate releases every parked and later handler without an answer (stream reset, nothing recorded).
+func (w *World) EndGate() {
+	w.mu.Lock()
+	already := w.ended
+	w.ended = true
+	w.mu.Unlock()
+	if !already {
+		close(w.Gate)
+	}
+}
+
+// StopExchange calls Exchange.Stop now (Close will not call it again).
+func (w *World) StopExchange() {
+	ctx, cancel := context.WithTimeout(context.Background(), time.Hour)
+	defer cancel()
+	w.stopped = true
+	_ = w.Ex.Stop(ctx)
 }
 
 // ---------------------------------------------------------------- observation
@@ -416,6 +571,11 @@ type Obs struct {
 func (w *World) Call(from H, to uint64, deadline time.Duration) (o Obs) {
 	ctx, cancel := context.WithTimeout(context.Background(), deadline)
 	defer cancel()
+	return w.CallCtx(ctx, from, to)
+}
+
+// CallCtx is Call under the caller's own context.
+func (w *World) CallCtx(ctx context.Context, from H, to uint64) (o Obs) {
 	defer func() {
 		if r := recover(); r != nil {
 			o = Obs{Kind: "panic", Detail: fmt.Sprint(r)}
